@@ -6,3 +6,4 @@ import TsVerif.C04.Props
 #print axioms TsVerif.C04.changed_sorted_bounded_partial
 #print axioms TsVerif.C04.override_span_witness
 #print axioms TsVerif.C04.changed_covers_partial
+#print axioms TsVerif.C04.spans_contiguous
